@@ -23,7 +23,9 @@ MANIFEST = {
             "(from_etree_sound_deep, induction over the document); each violation stated on the input is rejected (missing required, two of a group, none of a required "
             "group, unknown keyword, foreign list member, wrong sub-aggregate class, converter refusal, children out of sequence or duplicated). The hypothesis on groups is a "
             "kernel-evaluated fact about the regenerated table. Model tied to models/base.py by a mutation stream over all concrete classes x constraint kinds x both routes; "
-            "an independent validator (proved to reflect the declarative predicate) is run over every instance the real constructors return.",
+            "an independent validator (proved to reflect the declarative predicate) is run over every instance the real constructors return. Through the front door: "
+            "file_limit_violation_rejected_v1/_v2 (a file whose document violates a declared limit is split, parsed and refused: header engine + tokenizer + typed limit "
+            "clause) and a stream of response files through OFXTree.parse + convert and ofxget's extract_acctinfos / extract_signoninfos.",
     "note": "Trusted: Coq kernel + vm_compute; translator; hand transcription Model/Convert.v (validated by correspondence); element converters opaque here (C10). "
             "Print Assumptions: closed under the global context.",
 }
